@@ -1,4 +1,5 @@
 """C16 -- affine charts, affine maps, subspace operations (C1, R1c, I1c, U1)."""
+from ..rules import misc_rules as MI
 from ..rules import dtype_rules as DT
 from ..rules import chart_rules as R
 from ..rules import cache_rules as CA
@@ -32,6 +33,7 @@ def run(ctx):
         "None.affine_coords", "None.projective_coords"})
     ctx.do(SI.rule_eig1, only={"Transformation.eigenvector", "Transformation.diagonalize"})
     ctx.do(SI.rule_svd1)
+    ctx.do(MI.rule_sgn1, ["geometry_tools/projective.py", "geometry_tools/utils/core.py"])
     ctx.do(DT.rule_cx1, ["geometry_tools/projective.py"])
     ctx.do(SH.rule_hom1, parts=("proj", "proj-cx"), min_proved=6)
     ctx.do(u1, ENTRIES, min_functions=15)
